@@ -333,6 +333,9 @@ func init() {
 	}
 	intercepts["(time.Duration).Milliseconds"] = func(ex *Exec, fr *Frame, a []Value, s ssa.Instruction) Value {
 		d := a[0].(*Term)
+		if ms, ok := ex.W.durMs[d.id]; ok {
+			return ms
+		}
 		if n, ok := d.BVVal(); ok {
 			return ex.tt.BV(uint64(int64(n)/1000000), 64)
 		}
@@ -503,28 +506,53 @@ func (ex *Exec) havocValue(t types.Type, name string, depth int) Value {
 
 func init() {
 	cur := "(*" + repoMod + "/internal/kernel/t_api.Cursor[T])."
-	intercepts[cur+"Decode"] = func(ex *Exec, fr *Frame, a []Value, s ssa.Instruction) Value {
-		ex.H.noteStub("jwt cursor: Decode forks {error, validly signed token with arbitrary claims}; the signing key is a constant in the source")
-		p := ex.ptr(a[0])
-		st := ex.peek(p).(*StructV)
-		switch ex.choose(2, nil, "cursor-decode") {
+	// jwt.ParseWithClaims (contract of golang-jwt v3): the token is malformed (claims untouched), or its claims
+	// are decoded - whatever the bearer chose - and then the signature check against the key returned by the
+	// key function fails (ValidationErrorSignatureInvalid, claims stay filled) or succeeds. The real
+	// Cursor.Decode runs on top of this.
+	intercepts["github.com/golang-jwt/jwt.ParseWithClaims"] = func(ex *Exec, fr *Frame, a []Value, s ssa.Instruction) Value {
+		ex.H.noteStub("jwt.ParseWithClaims: malformed | claims decoded (arbitrary) then signature invalid | valid; the signing key is a constant in the source, so a bearer can produce validly signed arbitrary claims")
+		sig := s.(*ssa.Call).Call.Value.(*ssa.Function).Signature
+		tokT := sig.Results().At(0).Type()
+		verr := func(bits uint64) Value {
+			var vt types.Type
+			if o := s.(*ssa.Call).Call.Value.(*ssa.Function).Object(); o != nil && o.Pkg() != nil {
+				if tn := o.Pkg().Scope().Lookup("ValidationError"); tn != nil {
+					vt = tn.Type()
+				}
+			}
+			if vt == nil {
+				panic(ex.unsupported("jwt.ValidationError type not found"))
+			}
+			e := ex.newStruct(vt)
+			ex.fset(e, vt, "Errors", ex.tt.BV(bits, 32))
+			return &IfaceV{typ: types.NewPointer(vt), v: e}
+		}
+		k := ex.choose(3, nil, "jwt-parse")
+		switch k {
 		case 0:
-			return ex.opaqueErr("jwt: token is malformed / signature is invalid")
+			ex.W.jwtOutcome = "malformed"
+			return &TupleV{vs: []Value{&PtrV{typ: tokT}, verr(1)}} // ValidationErrorMalformed
 		}
-		// forged (or genuine) token: claims are whatever the bearer chose
-		nt := p.obj.typ
-		if nt == nil && p.typ != nil {
-			nt = p.typ.(*types.Pointer).Elem()
+		// claims decoded: fill the Next field of the claims struct
+		civ := a[1].(*IfaceV)
+		cp := ex.ptr(civ.v)
+		ct := civ.typ.Underlying().(*types.Pointer).Elem()
+		st := ex.peek(cp).(*StructV)
+		st.fs[0] = ex.havocValue(ct.Underlying().(*types.Struct).Field(0).Type(), "cursor.next", 0)
+		// the key function is consulted
+		ex.callValue(fr, a[2], []Value{&PtrV{typ: tokT}}, s)
+		if k == 1 {
+			ex.W.jwtOutcome = "signature-invalid"
+			return &TupleV{vs: []Value{ex.newStruct(tokT.(*types.Pointer).Elem()), verr(4)}} // ValidationErrorSignatureInvalid
 		}
-		var ft types.Type
-		if nt != nil {
-			ft = nt.Underlying().(*types.Struct).Field(0).Type()
-		} else {
-			ft = s.(*ssa.Call).Call.Args[0].Type().(*types.Pointer).Elem().Underlying().(*types.Struct).Field(0).Type()
-		}
-		st.fs[0] = ex.havocValue(ft, "cursor.next", 0)
-		return nilErr()
+		ex.W.jwtOutcome = "valid"
+		return &TupleV{vs: []Value{ex.newStruct(tokT.(*types.Pointer).Elem()), nilErr()}}
 	}
+	for _, n := range []string{"(github.com/golang-jwt/jwt.ValidationError).Error", "(*github.com/golang-jwt/jwt.ValidationError).Error"} {
+		intercepts[n] = func(ex *Exec, fr *Frame, a []Value, s ssa.Instruction) Value { return ex.tt.Str("token is invalid") }
+	}
+	vx("JwtOutcome", func(ex *Exec, fr *Frame, a []Value, s ssa.Instruction) Value { return ex.tt.Str(ex.W.jwtOutcome) })
 	intercepts[cur+"Encode"] = func(ex *Exec, fr *Frame, a []Value, s ssa.Instruction) Value {
 		ex.H.noteStub("jwt cursor: Encode returns an opaque token")
 		return &TupleV{vs: []Value{ex.input("cursor.token", "string", SString), nilErr()}}
@@ -884,5 +912,160 @@ func init() {
 			}
 		}
 		panic(ex.unsupported("FieldTag: no field %s", name))
+	})
+}
+
+func init() {
+	// an arbitrary configured duration: an opaque value whose whole milliseconds are an arbitrary number in
+	// [lo, hi] (the code under test only ever asks a configured duration for its milliseconds)
+	vx("DurationMs", func(ex *Exec, fr *Frame, a []Value, s ssa.Instruction) Value {
+		tt := ex.tt
+		name := ex.str(a[0], "name")
+		lo, hi := ex.concreteInt(a[1], "lo"), ex.concreteInt(a[2], "hi")
+		d := ex.input(name, "int64", SBV64)
+		ms := ex.input(name+".ms", "int64", SBV64)
+		ex.addPC(tt.And(tt.SLe(tt.BV(uint64(lo), 64), ms), tt.SLe(ms, tt.BV(uint64(hi), 64))))
+		if ex.W.durMs == nil {
+			ex.W.durMs = map[int]*Term{}
+		}
+		ex.W.durMs[d.id] = ms
+		return d
+	})
+}
+
+// further *url.URL accessors: projections of the source text that are distinct uninterpreted functions
+// (Hostname strips a port that Host keeps, etc.), so code that switches accessor is distinguishable
+func init() {
+	for _, m := range []string{"Hostname", "Port", "EscapedPath", "RequestURI", "Query", "Redacted", "EscapedFragment"} {
+		m := m
+		intercepts["(*net/url.URL)."+m] = func(ex *Exec, fr *Frame, a []Value, s ssa.Instruction) Value {
+			p := ex.ptr(a[0])
+			ut := p.obj.typ
+			if ut == nil {
+				ut = s.(*ssa.Call).Call.Args[0].Type().(*types.Pointer).Elem()
+			}
+			src := ex.fget(p, ut, "Opaque").(*Term)
+			if cs, ok := src.StrVal(); ok && cs == "" {
+				// a URL built field by field (not by the Parse stub): the projection is a function of its Path / Host
+				if m == "Hostname" || m == "Port" {
+					src = ex.fget(p, ut, "Host").(*Term)
+				} else {
+					src = ex.fget(p, ut, "Path").(*Term)
+				}
+			}
+			if m == "Query" {
+				panic(ex.unsupported("url.URL.Query"))
+			}
+			ex.H.noteStub("net/url.URL." + m + ": uninterpreted projection of the parsed text")
+			return ex.tt.UF("url_"+strings.ToLower(m), SString, src)
+		}
+	}
+}
+
+// strings.Trim family: concrete when everything is concrete, otherwise distinct uninterpreted functions of
+// (input, cutset) - enough to tell them from the identity and from each other
+func init() {
+	type fn2 func(string, string) string
+	for name, f := range map[string]fn2{"Trim": strings.Trim, "TrimLeft": strings.TrimLeft, "TrimRight": strings.TrimRight, "TrimSuffix": strings.TrimSuffix} {
+		name, f := name, f
+		intercepts["strings."+name] = func(ex *Exec, fr *Frame, a []Value, s ssa.Instruction) Value {
+			x, c := a[0].(*Term), a[1].(*Term)
+			xs, ok1 := x.StrVal()
+			cs, ok2 := c.StrVal()
+			if ok1 && ok2 {
+				return ex.tt.Str(f(xs, cs))
+			}
+			if !ok2 {
+				panic(ex.unsupported("strings.%s with symbolic cutset", name))
+			}
+			ex.H.noteStub("strings." + name + " (uninterpreted on symbolic input)")
+			return ex.tt.UF("str_"+strings.ToLower(name)+"_"+sanitize(cs), SString, x)
+		}
+	}
+	intercepts["strings.TrimSpace"] = func(ex *Exec, fr *Frame, a []Value, s ssa.Instruction) Value {
+		x := a[0].(*Term)
+		if xs, ok := x.StrVal(); ok {
+			return ex.tt.Str(strings.TrimSpace(xs))
+		}
+		ex.H.noteStub("strings.TrimSpace (uninterpreted on symbolic input)")
+		return ex.tt.UF("str_trimspace", SString, x)
+	}
+}
+
+// strings.Split / strings.Contains. Split(s, sep) for a constant non-empty sep is characterised exactly by
+// "Join(parts, sep) == s and no part contains sep"; the number of parts is a choice bounded by 4.
+func init() {
+	intercepts["strings.Contains"] = func(ex *Exec, fr *Frame, a []Value, s ssa.Instruction) Value {
+		return ex.tt.StrContains(a[0].(*Term), a[1].(*Term))
+	}
+	intercepts["strings.Split"] = func(ex *Exec, fr *Frame, a []Value, s ssa.Instruction) Value {
+		tt := ex.tt
+		x := a[0].(*Term)
+		sep, ok := a[1].(*Term).StrVal()
+		if !ok || sep == "" {
+			panic(ex.unsupported("strings.Split with a symbolic or empty separator"))
+		}
+		mk := func(parts []*Term) Value {
+			arr := &ArrayV{}
+			for _, p := range parts {
+				arr.es = append(arr.es, p)
+			}
+			return &SliceV{arr: ex.newObj(arr, nil), len: len(parts), cap: len(parts)}
+		}
+		if xs, ok := x.StrVal(); ok {
+			var parts []*Term
+			for _, p := range strings.Split(xs, sep) {
+				parts = append(parts, tt.Str(p))
+			}
+			return mk(parts)
+		}
+		ex.H.noteBound("strings.Split on a symbolic string yields at most 4 parts")
+		const K = 4
+		ex.W.nsplit++
+		conds := make([]*Term, K)
+		all := make([][]*Term, K)
+		for k := 1; k <= K; k++ {
+			var parts, cat []*Term
+			var cs []*Term
+			for i := 0; i < k; i++ {
+				p := tt.Var(fmt.Sprintf("split%d.%d.%d", ex.W.nsplit, k, i), SString)
+				parts = append(parts, p)
+				if i > 0 {
+					cat = append(cat, tt.Str(sep))
+				}
+				cat = append(cat, p)
+				cs = append(cs, tt.Not(tt.StrContains(p, tt.Str(sep))))
+			}
+			cs = append(cs, tt.Eq(x, tt.Concat(cat...)))
+			conds[k-1] = tt.And(cs...)
+			all[k-1] = parts
+		}
+		k := ex.choose(K, conds, "split-parts")
+		return mk(all[k])
+	}
+	intercepts["net/http.Error"] = func(ex *Exec, fr *Frame, a []Value, s ssa.Instruction) Value {
+		ex.W.httpErrors = append(ex.W.httpErrors, a[2].(*Term))
+		return nil
+	}
+	// (*http.Request).Context().Done(): a channel the harness closes with vx.CancelRequest()
+	intercepts["(*net/http.Request).Context"] = func(ex *Exec, fr *Frame, a []Value, s ssa.Instruction) Value {
+		if ex.W.reqDone == nil {
+			ex.W.reqDone = &ChanObj{cap: 0}
+		}
+		return &IfaceV{typ: ex.P.errorStringType(), v: &OpaqueV{kind: "reqctx"}}
+	}
+	intercepts["opaque:reqctx.Done"] = func(ex *Exec, fr *Frame, a []Value, s ssa.Instruction) Value {
+		return &OpaqueV{kind: "chan", data: ex.W.reqDone}
+	}
+	vx("CancelRequest", func(ex *Exec, fr *Frame, a []Value, s ssa.Instruction) Value {
+		if ex.W.reqDone == nil {
+			ex.W.reqDone = &ChanObj{cap: 0}
+		}
+		ex.W.reqDone.closed = true
+		return nil
+	})
+	vx("HttpErrors", func(ex *Exec, fr *Frame, a []Value, s ssa.Instruction) Value { return ex.tt.BV(uint64(len(ex.W.httpErrors)), 64) })
+	vx("HttpErrorCode", func(ex *Exec, fr *Frame, a []Value, s ssa.Instruction) Value {
+		return ex.tt.Resize(ex.W.httpErrors[ex.concreteInt(a[0], "index")], 64, true)
 	})
 }
